@@ -194,4 +194,226 @@ theorem old_apply_captures :
     applySeq σ rhs = .app 3 [.atom (.const 1), .atom (.const 1)] ∧
     substitute σ rhs = .app 3 [.atom (.const 101), .atom (.const 1)] := by decide
 
+mutual
+theorem instPattern_ground (vars : List Sym) (σ : Subst) :
+    ∀ (t : Term), (∀ s ∈ t.flatten, s ∉ vars) → instPattern vars σ t = some t
+  | .atom s, h => by
+    have : s ∉ vars := h s (by simp [Term.flatten])
+    simp [instPattern, this]
+  | .app f ps, h => by
+    simp only [instPattern]
+    rw [instPatternList_ground vars σ ps (fun s hs => h s (by simp [Term.flatten, hs]))]
+    rfl
+  | .lst ps, h => by
+    simp only [instPattern]
+    rw [instPatternList_ground vars σ ps (fun s hs => h s (by simp [Term.flatten, hs]))]
+    rfl
+theorem instPatternList_ground (vars : List Sym) (σ : Subst) :
+    ∀ (ts : List Term), (∀ s ∈ flattenList ts, s ∉ vars) → instPatternList vars σ ts = some ts
+  | [], _ => by simp [instPatternList]
+  | t :: ts, h => by
+    simp only [instPatternList]
+    rw [instPattern_ground vars σ t (fun s hs => h s (by simp [flattenList, hs])),
+        instPatternList_ground vars σ ts (fun s hs => h s (by simp [flattenList, hs]))]
+    rfl
+end
+
+mutual
+theorem headsOk_ground (vars : List Sym) : ∀ (t : Term), (∀ s ∈ t.flatten, s ∉ vars) → headsOk vars t = true
+  | .atom s, _ => by simp [headsOk]
+  | .app f ps, h => by
+    have h1 : Sym.fn f ∉ vars := h _ (by simp [Term.flatten])
+    simp only [headsOk, Bool.and_eq_true, Bool.not_eq_true', List.contains_eq_mem, decide_eq_false_iff_not]
+    exact ⟨h1, headsOkList_ground vars ps (fun s hs => h s (by simp [Term.flatten, hs]))⟩
+  | .lst ps, h => by
+    have h1 : listSym ∉ vars := h _ (by simp [Term.flatten])
+    simp only [headsOk, Bool.and_eq_true, Bool.not_eq_true', List.contains_eq_mem, decide_eq_false_iff_not]
+    exact ⟨h1, headsOkList_ground vars ps (fun s hs => h s (by simp [Term.flatten, hs]))⟩
+theorem headsOkList_ground (vars : List Sym) : ∀ (ts : List Term), (∀ s ∈ flattenList ts, s ∉ vars) → headsOkList vars ts = true
+  | [], _ => by simp [headsOkList]
+  | t :: ts, h => by
+    simp only [headsOkList, Bool.and_eq_true]
+    exact ⟨headsOk_ground vars t (fun s hs => h s (by simp [flattenList, hs])),
+           headsOkList_ground vars ts (fun s hs => h s (by simp [flattenList, hs]))⟩
+end
+
+/-- **ground_rule_matches_with_empty_bindings.** A rule whose left-hand side contains no variable matches the term
+equal to that left-hand side, and the yielded substitution is the EMPTY one (`{}` — a valid match, not "no match"). -/
+theorem ground_rule_matches_with_empty_bindings (rules : List Rule) (i : Nat) (r : Rule)
+    (hr : rules[i]? = some r) (hg : ∀ s ∈ r.lhs.flatten, s ∉ r.vars) :
+    ∃ ms, iterMatches rules r.lhs = some ms ∧ (i, []) ∈ ms := by
+  obtain ⟨ms, σ', hms, hmem, _⟩ := match_complete rules r.lhs i r [] hr (headsOk_ground _ _ hg)
+    (instPattern_ground _ _ _ hg)
+  obtain ⟨r', syms, hr', hgo, hlen⟩ := match_binds_varlist rules r.lhs ms i σ' hms hmem
+  rw [hr] at hr'
+  cases hr'
+  have hv : r.varlist = [] := by
+    unfold Rule.varlist
+    rw [List.filter_eq_nil_iff]
+    intro s hs
+    simpa using hg s hs
+  rw [hv] at hgo hlen
+  have : syms = [] := by
+    cases syms with
+    | nil => rfl
+    | cons a b => simp at hlen
+  subst this
+  simp only [processGo, Option.some.injEq] at hgo
+  subst hgo
+  exact ⟨ms, hms, hmem⟩
+
+
+/-! ### bottom-up rewriting -/
+
+mutual
+/-- the rewrite relation generated by a rule set: reflexive, transitive, closed under contexts; a step replaces an
+instance `σ(lhs)` of some rule by `σ(rhs)` -/
+inductive Rewrites (rules : List Rule) : Term → Term → Prop
+  | refl (t : Term) : Rewrites rules t t
+  | step (i : Nat) (r : Rule) (σ : Subst) (t : Term) : rules[i]? = some r → instPattern r.vars σ r.lhs = some t →
+      Rewrites rules t (substitute σ r.rhs)
+  | trans {a b c : Term} : Rewrites rules a b → Rewrites rules b c → Rewrites rules a c
+  | app (f : Nat) {as bs : List Term} : RewritesList rules as bs → Rewrites rules (.app f as) (.app f bs)
+  | lst {as bs : List Term} : RewritesList rules as bs → Rewrites rules (.lst as) (.lst bs)
+inductive RewritesList (rules : List Rule) : List Term → List Term → Prop
+  | nil : RewritesList rules [] []
+  | cons {a b : Term} {as bs : List Term} : Rewrites rules a b → RewritesList rules as bs →
+      RewritesList rules (a :: as) (b :: bs)
+end
+
+/-- a top-level rewrite is zero or one step of the relation -/
+theorem rewriteTop_rewrites (rules : List Rule) (t t' : Term) (h : rewriteTop rules t = some t') :
+    Rewrites rules t t' := by
+  obtain ⟨ms, _, hcase⟩ := rewrite_applies_iff rules t
+  rcases hcase with ⟨_, hrt, _⟩ | ⟨i, σ, rest, r, _, hr, hinst, hrt⟩
+  · rw [hrt] at h
+    cases h
+    exact .refl t
+  · rw [hrt] at h
+    cases h
+    exact .step i r σ t hr hinst
+
+mutual
+/-- **bottom_up_rewrites.** Whatever `rewrite(strategy="bottom_up")` returns is derivable from the term with the rules:
+every change it makes is the replacement of an instance of some left-hand side by the corresponding right-hand side. -/
+theorem bottom_up_rewrites (rules : List Rule) : ∀ (t t' : Term), bottomUp rules t = some t' → Rewrites rules t t'
+  | .atom s, t', h => by
+    simp only [bottomUp] at h
+    exact rewriteTop_rewrites rules _ _ h
+  | .app f as, t', h => by
+    simp only [bottomUp, Option.bind_eq_some_iff] at h
+    obtain ⟨as', h1, h2⟩ := h
+    exact .trans (.app f (bottom_up_list_rewrites rules as as' h1)) (rewriteTop_rewrites rules _ _ h2)
+  | .lst as, t', h => by
+    simp only [bottomUp, Option.bind_eq_some_iff] at h
+    obtain ⟨as', h1, h2⟩ := h
+    exact .trans (.lst (bottom_up_list_rewrites rules as as' h1)) (rewriteTop_rewrites rules _ _ h2)
+theorem bottom_up_list_rewrites (rules : List Rule) : ∀ (ts ts' : List Term), bottomUpList rules ts = some ts' →
+    RewritesList rules ts ts'
+  | [], ts', h => by
+    simp only [bottomUpList, Option.some.injEq] at h
+    subst h
+    exact .nil
+  | t :: ts, ts', h => by
+    simp only [bottomUpList, Option.bind_eq_some_iff, Option.map_eq_some_iff] at h
+    obtain ⟨t1, h1, ts1, h2, rfl⟩ := h
+    exact .cons (bottom_up_rewrites rules t t1 h1) (bottom_up_list_rewrites rules ts ts1 h2)
+end
+
+theorem rewriteTop_total (rules : List Rule) (t : Term) : ∃ t', rewriteTop rules t = some t' := by
+  obtain ⟨ms, hms⟩ := match_terminates rules t
+  exact ⟨_, by simp [rewriteTop, hms]; rfl⟩
+
+mutual
+/-- **bottom_up_terminates.** `_bottom_up` always returns (one `_match` run per node, each within its fuel bound). -/
+theorem bottom_up_terminates (rules : List Rule) : ∀ (t : Term), ∃ t', bottomUp rules t = some t'
+  | .atom s => by simp only [bottomUp]; exact rewriteTop_total rules _
+  | .app f as => by
+    obtain ⟨as', h⟩ := bottom_up_list_terminates rules as
+    obtain ⟨t', h'⟩ := rewriteTop_total rules (.app f as')
+    exact ⟨t', by simp [bottomUp, h, h']⟩
+  | .lst as => by
+    obtain ⟨as', h⟩ := bottom_up_list_terminates rules as
+    obtain ⟨t', h'⟩ := rewriteTop_total rules (.lst as')
+    exact ⟨t', by simp [bottomUp, h, h']⟩
+theorem bottom_up_list_terminates (rules : List Rule) : ∀ (ts : List Term), ∃ ts', bottomUpList rules ts = some ts'
+  | [] => ⟨[], by simp [bottomUpList]⟩
+  | t :: ts => by
+    obtain ⟨t', h⟩ := bottom_up_terminates rules t
+    obtain ⟨ts', h'⟩ := bottom_up_list_terminates rules ts
+    exact ⟨t' :: ts', by simp [bottomUpList, h, h']⟩
+end
+
+mutual
+/-- no rule matches the term or any of its subterms -/
+def NormalForm (rules : List Rule) : Term → Prop
+  | .atom s => iterMatches rules (.atom s) = some []
+  | .app f as => iterMatches rules (.app f as) = some [] ∧ NormalFormList rules as
+  | .lst as => iterMatches rules (.lst as) = some [] ∧ NormalFormList rules as
+def NormalFormList (rules : List Rule) : List Term → Prop
+  | [] => True
+  | t :: ts => NormalForm rules t ∧ NormalFormList rules ts
+end
+
+theorem rewriteTop_of_no_match (rules : List Rule) (t : Term) (h : iterMatches rules t = some []) :
+    rewriteTop rules t = some t := by
+  simp [rewriteTop, h]
+
+mutual
+/-- **bottom_up_fixes_normal_forms.** A term in which no rule matches at any position is returned unchanged. -/
+theorem bottom_up_fixes_normal_forms (rules : List Rule) : ∀ (t : Term), NormalForm rules t → bottomUp rules t = some t
+  | .atom s, h => by
+    simp only [NormalForm] at h
+    simp only [bottomUp]
+    exact rewriteTop_of_no_match rules _ h
+  | .app f as, h => by
+    simp only [NormalForm] at h
+    simp only [bottomUp, bottom_up_list_fixes rules as h.2, Option.bind_some]
+    exact rewriteTop_of_no_match rules _ h.1
+  | .lst as, h => by
+    simp only [NormalForm] at h
+    simp only [bottomUp, bottom_up_list_fixes rules as h.2, Option.bind_some]
+    exact rewriteTop_of_no_match rules _ h.1
+theorem bottom_up_list_fixes (rules : List Rule) : ∀ (ts : List Term), NormalFormList rules ts → bottomUpList rules ts = some ts
+  | [], _ => by simp [bottomUpList]
+  | t :: ts, h => by
+    simp only [NormalFormList] at h
+    simp [bottomUpList, bottom_up_fixes_normal_forms rules t h.1, bottom_up_list_fixes rules ts h.2]
+end
+
+
+/-- non-vacuity (ground rule): `(f, 0, 0) → 0` without variables matches `(f, 0, 0)` with the empty substitution -/
+example :
+    iterMatches [⟨.app 1 [.atom (.const 0), .atom (.const 0)], .atom (.const 0), []⟩]
+      (.app 1 [.atom (.const 0), .atom (.const 0)]) = some [(0, [])] := by decide
+
+/-- the documented example of `RuleSet.rewrite`: `(add, x, x) → (double, x)` on `(add, (add, 2, 2), (add, 2, 2))` gives
+`(double, (double, 2))` bottom-up and `(double, (add, 2, 2))` at top level -/
+example :
+    let rules : List Rule := [⟨.app 1 [.atom (.const 100), .atom (.const 100)], .app 2 [.atom (.const 100)], [.const 100]⟩]
+    let two := Term.atom (.const 2)
+    let t := Term.app 1 [.app 1 [two, two], .app 1 [two, two]]
+    bottomUp rules t = some (.app 2 [.app 2 [two]]) ∧ rewriteTop rules t = some (.app 2 [.app 1 [two, two]]) ∧
+    NormalForm rules (.app 2 [.app 2 [two]]) := by
+  refine ⟨by decide, by decide, ?_⟩
+  simp only [NormalForm, NormalFormList]
+  exact ⟨by decide, ⟨by decide, by decide, trivial⟩, trivial⟩
+
+/-- **rewrite_strategies.** `rewrite(task)` without a strategy is the bottom-up one; `"top_level"` is `_rewrite`; any other
+name raises `KeyError` (the extracted `strategies` table has exactly these two entries). -/
+theorem rewrite_strategies (rules : List Rule) (t : Term) :
+    (∃ t', bottomUp rules t = some t' ∧ rewrite rules t none = .ok t' ∧ rewrite rules t (some "bottom_up") = .ok t') ∧
+    (∃ t', rewriteTop rules t = some t' ∧ rewrite rules t (some "top_level") = .ok t') ∧
+    ∀ name, name ≠ "bottom_up" → name ≠ "top_level" → rewrite rules t (some name) = .keyError := by
+  obtain ⟨t1, h1⟩ := bottom_up_terminates rules t
+  obtain ⟨t2, h2⟩ := rewriteTop_total rules t
+  refine ⟨⟨t1, h1, ?_, ?_⟩, ⟨t2, h2, ?_⟩, ?_⟩
+  · simp [rewrite, strategyFn, Dask.Generated.RewriteTables.strategies, Dask.Generated.RewriteTables.defaultStrategy, h1]
+  · simp [rewrite, strategyFn, Dask.Generated.RewriteTables.strategies, h1]
+  · simp [rewrite, strategyFn, Dask.Generated.RewriteTables.strategies, h2]
+  · intro name hb ht
+    have h1 : ("top_level" == name) = false := by simpa using fun e => ht e.symm
+    have h2 : ("bottom_up" == name) = false := by simpa using fun e => hb e.symm
+    simp [rewrite, strategyFn, Dask.Generated.RewriteTables.strategies, List.find?, h1, h2]
+
 end Dask.C51
